@@ -15,6 +15,7 @@ import (
 	"fmt"
 	"io"
 	"net"
+	"net/url"
 	"os"
 	"sort"
 	"strings"
@@ -24,6 +25,7 @@ import (
 	"time"
 
 	"github.com/daeuniverse/dae/common/consts"
+	commonerrors "github.com/daeuniverse/dae/common/errors"
 	"github.com/daeuniverse/dae/component/outbound"
 	"github.com/daeuniverse/dae/component/outbound/dialer"
 	D "github.com/daeuniverse/outbound/dialer"
@@ -37,7 +39,7 @@ func (c16Noop) DialContext(context.Context, string, string) (netproxy.Conn, erro
 	return nil, errors.New("not implemented")
 }
 
-var c16Typs = []string{"t4", "t6", "T4", "T6", "d4", "d6", "u4", "u6", "x4", "x6", "d4", "d6", "u4", "u6", "y4", "y6", "z4", "z6"}
+var c16Typs = []string{"t4", "t6", "T4", "T6", "d4", "d6", "u4", "u6", "x4", "x6", "d4", "d6", "u4", "u6", "y4", "y6", "z4", "z6", "a4", "a6", "b4", "b6"}
 
 func c16NT(tok string) *dialer.NetworkType {
 	nt := &dialer.NetworkType{IpVersion: consts.IpVersionStr_4}
@@ -50,6 +52,13 @@ func c16NT(tok string) *dialer.NetworkType {
 	case 'T':
 		nt.L4Proto = consts.L4ProtoStr_TCP
 		nt.IsDns = true
+	case 'a': // what the DNS-over-TCP data path reports (control_plane.go)
+		nt.L4Proto = consts.L4ProtoStr_TCP
+		nt.IsDns = true
+		nt.UdpHealthDomain = dialer.UdpHealthDomainDns
+	case 'b':
+		nt.L4Proto = consts.L4ProtoStr_TCP
+		nt.UdpHealthDomain = dialer.UdpHealthDomainData
 	case 'd':
 		nt.L4Proto = consts.L4ProtoStr_UDP
 		nt.IsDns = true
@@ -76,7 +85,12 @@ func c16Tok(nt *dialer.NetworkType) string {
 		v = "6"
 	}
 	if nt.L4Proto == consts.L4ProtoStr_TCP {
-		if nt.IsDns {
+		switch {
+		case nt.UdpHealthDomain == dialer.UdpHealthDomainDns:
+			return "a" + v
+		case nt.UdpHealthDomain == dialer.UdpHealthDomainData:
+			return "b" + v
+		case nt.IsDns:
 			return "T" + v
 		}
 		return "t" + v
@@ -104,7 +118,7 @@ func c16Idx(tok string) int {
 		b = 1
 	}
 	switch tok[0] {
-	case 't', 'T':
+	case 't', 'T', 'a', 'b':
 		return 4 + b
 	case 'd', 'z':
 		return 2 + b
@@ -393,7 +407,10 @@ func (s *c16Scn) closeGroup(g *c16Group) {
 	s.emit(fmt.Sprintf("close %d", g.id), nil)
 }
 
-var c16ProbeErrs = []error{errors.New("connection refused"), errors.New("timeout"), net.ErrClosed,
+// Errors every path counts. Closed-connection errors are deliberately NOT in this pool: Dialer.check
+// ignores only context.Canceled while the Report* paths ignore IsCanceledOrClosed; which of the two is
+// right for a probe is outside what the check pins (see design note, "error classes").
+var c16ProbeErrs = []error{errors.New("connection refused"), errors.New("timeout"),
 	syscall.ECONNRESET, errors.New("bad status code: 502")}
 var c16Canceled = []error{context.Canceled, fmt.Errorf("Get \"http://x\": %w", context.Canceled)}
 
@@ -431,7 +448,9 @@ func (s *c16Scn) probe(n *c16Node, tok string, a1, a2 string) string {
 var c16Ignorable = []error{context.Canceled, fmt.Errorf("dial tcp: %w", context.Canceled), net.ErrClosed,
 	&net.OpError{Op: "read", Net: "udp", Err: net.ErrClosed}, os.ErrClosed,
 	errors.New("read udp 1.2.3.4:5: use of closed network connection"),
-	errors.New("rpc error: operation was canceled"), errors.New("quic: context canceled")}
+	errors.New("rpc error: operation was canceled"), errors.New("quic: context canceled"),
+	commonerrors.ErrClosedConnection, commonerrors.ErrClosedListener,
+	&url.Error{Op: "Get", URL: "http://x", Err: net.ErrClosed}, &net.OpError{Op: "dial", Err: context.Canceled}}
 var c16Counted = []error{nil, errors.New("i/o timeout"), syscall.ECONNREFUSED, io.EOF, context.DeadlineExceeded,
 	io.ErrUnexpectedEOF, errors.New("connection reset by peer"), syscall.ENETUNREACH}
 
@@ -443,6 +462,7 @@ func (s *c16Scn) pickErr(ign bool) error {
 }
 
 func (s *c16Scn) note(kind, tok, detail string, sup, pre bool, n *c16Node) {
+	s.stats.Inc("typ." + tok)
 	h := n.d.HealthSnapshot().Collections[c16Idx(tok)]
 	s.distinct[fmt.Sprintf("%s|%s|%s|sup%v|pre%v|post%v|f%d|t%d", kind, tok, detail, sup, pre, h.Alive,
 		c16Bucket(h.FailCount), c16Bucket(int(h.TrafficFailCount)))] = struct{}{}
@@ -953,13 +973,26 @@ func (s *c16Scn) genReload() {
 		ng := s.addGroup(og.pol, tol, ms, offs)
 		pends = append(pends, pend{ng, ng.g.CaptureReloadSelectionFallback(), og})
 	}
-	// as InheritDialerHealthFrom: per group, restore every matched dialer, then the floor
+	// the order of InheritDialerHealthFrom (fix a4cd600): all fallbacks are captured above while every
+	// new node is fresh, then every matched dialer of every group is restored, then every group floored.
+	// (The real method itself is driven by the control-package harness.)
+	shared := false
+	seen := map[*c16Node]bool{}
 	for _, p := range pends {
 		for _, m := range p.og.members {
 			if nn := newOf[m]; nn != nil && s.r.Chance(0.95) {
+				if seen[nn] {
+					shared = true
+				}
+				seen[nn] = true
 				s.inherit(nn, m)
 			}
 		}
+	}
+	if shared {
+		s.stats.Inc("gen.reload.shared")
+	}
+	for _, p := range pends {
 		if s.r.Chance(0.9) {
 			s.floor(p.g, p.fb)
 		}
